@@ -122,6 +122,19 @@ Definition struct_tags (cx : ctx) (tg : option (list stag)) : list stag :=
 (* withIgnoreTaggable for the fields of a struct: only right after its own filterTaggable, and not for slice elements *)
 Definition struct_ign (cx : ctx) (tg : option (list stag)) : bool :=
   match tg, cx with Some _, CTop _ => true | Some _, CField _ _ _ _ => honoured cx | _, _ => false end.
+(* a key of a swept map that no tag names: its value is filtered as unclassified data; when pointer tags "/k/k2" go
+   through it (it is then a nested map, tracked on its own by trackTaggable) those tags govern ITS keys *)
+Definition entry_ctx (k : N) (mt : list mtag) : ctx :=
+  match nested_tags k mt with
+  | [] => CMapVal
+  | nt => CField true true None (map (fun kt : N * string => (Some (TKey (fst kt)), snd kt)) nt)
+  end.
+(* pointerstructure cannot walk through a value that is no container: "invalid value kind" *)
+Definition nested_bad (k : N) (mt : list mtag) (y : v) : bool :=
+  match nested_tags k mt with
+  | [] => false
+  | _ => match deref y with VMap _ _ | VStruct _ _ | VSlice _ => false | _ => true end
+  end.
 Definition map_tags (cx : ctx) (tg : option (list mtag)) : list mtag :=
   (match tg with Some ts => if honoured cx then ts else [] | None => [] end)
   ++ (match cx with CField _ _ _ m => m | _ => [] end).
@@ -175,23 +188,6 @@ Section Walk.
     | t :: r => match apply_tag (resolve_string ov t) y s with Some (y', s') => apply_tags r y' s' | None => None end
     end.
 
-  (* tags "/k/k2" of a taggable map whose key k is itself swept afterwards: what they wrote is overwritten by the sweep
-     of k's map, only their failures and their AEAD/HMAC calls remain *)
-  Fixpoint nested_fx (nt : list (N * string)) (y : v) (s : st) : option st :=
-    match nt with
-    | [] => Some s
-    | (k2, t) :: r =>
-        match deref y with
-        | VMap _ l2 =>
-            match assoc k2 l2 with
-            | Some y2 => match apply_tag (resolve_string ov t) y2 s with Some (_, s') => nested_fx r y s' | None => None end
-            | None => nested_fx r y s
-            end
-        | VStruct _ _ | VSlice _ => nested_fx r y s
-        | _ => None                                      (* pointerstructure: invalid value kind *)
-        end
-    end.
-
   Fixpoint walk (cx : ctx) (x : v) (s : st) {struct x} : option (v * st) :=
     match x with
     | VLeaf lk l =>
@@ -232,8 +228,7 @@ Section Walk.
         if malformed mt then None else
         match mapM (fun (ky : N * v) s =>
                       match (match key_tags (fst ky) mt with
-                             | [] => match nested_fx (nested_tags (fst ky) mt) (snd ky) s with
-                                     | Some s0 => walk CMapVal (snd ky) s0 | None => None end
+                             | [] => if nested_bad (fst ky) mt (snd ky) then None else walk (entry_ctx (fst ky) mt) (snd ky) s
                              | ts => apply_tags ts (snd ky) s
                              end) with
                       | Some (y', s1) => Some ((fst ky, y'), s1) | None => None end) l s with
@@ -276,13 +271,19 @@ Inductive result :=
 | RErr                              (* (nil, err) *)
 | ROut (x : v).                     (* a new event with this payload *)
 
-(* reflect.ValueOf(payload).IsZero() for the payload shapes of the grammar *)
-Definition is_zero (x : v) : bool :=
+(* reflect.ValueOf(payload).IsZero() for the payload shapes of the grammar (slices and maps of a tree are non-nil) *)
+Fixpoint zero_field (x : v) : bool :=
   match x with
   | VPtr None | VNilBytes => true
-  | VLeaf LStr (Plain 0) => true
+  | VLeaf (LStr | LWStr) (Plain 0) => true
   | VOther 0%Z => true
+  | VStruct _ fs => forallb (fun f : field => zero_field (snd f)) fs
   | _ => false
+  end.
+Definition is_zero (x : v) : bool :=
+  match x with
+  | VLeaf LWStr _ => false           (* a wrapperspb message handed over by value is outside the grammar *)
+  | _ => zero_field x
   end.
 
 (* [c_wrap c]: the FILTER has a wrapper; [c_key c]: its key; [ekey]: the key of the wrapper derived for this event *)
